@@ -117,7 +117,7 @@ INSERTS = ["zq9", "AS zq9", "AS zq9 (zc1, zc2)", '"Zq 9"', 'AS "Zq 9"', "(zq9)",
            "zq9 zq8", "(424242)", "= zq9", "AS 'zq9lit'", "ON zq9 = zq8", "USING (zq9)", "IN (424242)", "NOT NULL", "DEFAULT 424242", "COMMENT 'zq9lit'",
            "EXCEPT (zq9)", "EXCLUDE (zq9)", "IGNORE NULLS", "FILTER (WHERE zq9 > 424242)", "OVER (ORDER BY zq9)", "WITHIN GROUP (ORDER BY zq9)",
            "ORDER BY zq9", "LIMIT 424242", "OFFSET 424242", "WHERE zq9 = 424242", "PARTITION (zq9)", "WITH (zq9 = 424242)", "COLLATE zq9", "AT TIME ZONE 'zq9lit'",
-           "START WITH zq9 = 424242", "CONNECT BY zq9 = PRIOR zq8", "HAVING zq9 > 424242", "GROUP BY zq9", "QUALIFY zq9 = 424242", "RETURNING zq9", "CASCADE", "IF EXISTS"]
+           "START WITH zq9 = 424242", "CONNECT BY zq9 = PRIOR zq8", "START WITH prior(zq9) = 424242", "START WITH PRIOR zq9 = 424242", "AND prior(zq9) = 424242", "HAVING zq9 > 424242", "GROUP BY zq9", "QUALIFY zq9 = 424242", "RETURNING zq9", "CASCADE", "IF EXISTS"]
 
 
 def insert_cases(run, n=None):
@@ -132,6 +132,30 @@ def insert_cases(run, n=None):
         cases.append({"dialect": d, "sql": x["sql"], "expr": INSERTS[i % len(INSERTS)], "seed": rng.randrange(1 << 30),
                       "unescape": rng.random() < 0.75, "trailing": rng.random() < 0.15, "insert": True, "stream": "insert"})
     return cases
+
+
+def sweep_failures(run, mode):
+    """Exhaustive insertion (rtx sweep): every fragment of INSERTS (quick: a rotating third) after every token of every
+    corpus text under one accepting dialect (thorough: all).  Returns (cases for `rtx <mode>` on the failing mutants, stats)."""
+    from corpus import corpus
+    rng = run.rng
+    cases = []
+    for k, x in enumerate(corpus()):
+        ds = x["dialects"] if run.tier == "thorough" else [rng.choice(x["dialects"])]
+        frs = INSERTS if run.tier == "thorough" else [f for j, f in enumerate(INSERTS) if (j + k) % 3 == 0]
+        for d in ds:
+            cases.append({"dialect": d, "sql": x["sql"], "frags": frs, "unescape": rng.random() < 0.8, "trailing": False})
+    res = run_bin_parallel(PKG, ["sweep"], cases, pkg=PKG, timeout=1700)
+    out, stats = [], collections.Counter()
+    for c, r in zip(cases, res):
+        stats["texts"] += 1
+        for k in ("tried", "accepted", "panics"):
+            stats[k] += r.get(k, 0)
+        for f in r.get("fails", []):
+            stats["failing_mutants"] += 1
+            out.append({"dialect": c["dialect"], "sql": f["mutated"], "unescape": c["unescape"], "trailing": False, "stream": "sweep",
+                        "origin": {"sql": c["sql"], "frag": f["frag"]}})
+    return out, dict(stats)
 
 
 def mutation_streams(run):
@@ -509,7 +533,7 @@ def _quotes_dropped(ctx):
 
 
 def _function_arg_name(ctx):
-    if ctx["kind"] != "content" or not ctx["lost"] or ctx["invented"] or any(it[0] != "w" for it in ctx["lost"]):
+    if ctx["kind"] != "content" or not ctx["lost"] or ctx["invented"] or any(it[0] not in ("w", "n") for it in ctx["lost"]):
         return False
     for a in _asts(ctx):
         for x in walk(a):
@@ -550,7 +574,16 @@ def _prefix_pair_key(ctx):
     return None
 
 
+def _number_period_glue(ctx):
+    """A number literal next to a `.` of a field / map access: `424242 .bar` prints `424242.bar` and `x. 424242` prints
+    `x.424242`, where the tokenizer reads the period into the number."""
+    sql, printed = ctx["sql"], ctx["printed"]
+    return bool((re.search(r"\d\s+\.\s*[A-Za-z_]", sql) and re.search(r"\d\.[A-Za-z_]", printed))
+                or (re.search(r"\.\s+\d", sql) and re.search(r"[\]\w)]\.\d", printed)))
+
+
 RULES = [
+    ("number-literal-next-to-period", _number_period_glue),
     ("datatype:custom-modifier-quotes", _custom_with_modifiers),
     ("ShowVariable:non-word-tokens-skipped", _show_variable),
     ("ShowVariable:keyword-consumed-before-guard", _show_variable_kw),
@@ -678,6 +711,11 @@ NOISE_BY_KIND = {
     "CreateRole": {"WITH": "optional before role options"},
     "CreateTable": {"TEMP": "TEMP == TEMPORARY"},
     "SetVariable": {"SESSION": "SET SESSION x == SET x", "TO": "SET x TO v == SET x = v", "TIME": "SET TIME ZONE == SET TIMEZONE", "ZONE": ""},
+    "SetTimeZone": {"TIMEZONE": "SET TIMEZONE == SET TIME ZONE (printed in the two-word form)"},
+    "CreateFunction": {"DEFAULT": "argument default: `a INT DEFAULT 1` == `a INT = 1` (printed with =)"},
+    "DropFunction": {"DEFAULT": "argument default: DEFAULT == ="},
+    "DropProcedure": {"DEFAULT": "argument default: DEFAULT == ="},
+    "CreateProcedure": {"DEFAULT": "argument default: DEFAULT == ="},
     "ShowColumns": {"FIELDS": "FIELDS == COLUMNS", "IN": "IN == FROM"},
     "ShowTables": {"IN": "IN == FROM"},
 }
@@ -697,6 +735,25 @@ def drop_pseudo_keywords(lost, invented):
                 invented.remove(twin)
                 lost.remove(it)
     return lost, invented
+
+
+# Synonymous spellings inside an expression form (the tree records which family was used, not each word).
+NOISE_BY_VARIANT = {
+    "Substring": {"FOR": "SUBSTRING(x, a FOR b): the comma form and the FROM/FOR form may be mixed; printed with the separators of the first",
+                  "FROM": "SUBSTRING(x FROM a, b): see FOR"},
+}
+
+
+def noise_by_variant(asts, w):
+    w = w.upper()
+    hit = [v for v, ws in NOISE_BY_VARIANT.items() if w in ws]
+    if not hit:
+        return False
+    for a in asts:
+        for x in walk(a):
+            if isinstance(x, dict) and any(v in x for v in hit):
+                return True
+    return False
 
 
 def noise(kinds, w):
@@ -748,7 +805,7 @@ def ct_findings(case, r, extra_rules=()):
         if st != "diff":
             continue
         lost, inv = drop_pseudo_keywords(u.get("lost", []), u.get("invented", []))
-        kw = [w for w in u.get("kw_lost", []) if not noise(kinds, w)]
+        kw = [w for w in u.get("kw_lost", []) if not noise(kinds, w) and not noise_by_variant(asts, w)]
         if not lost and not inv and not kw:
             continue
         ctx = make_ctx(case, sk, "content", u.get("printed"), None, None, asts, u.get("lits"), lost, inv, kw)
